@@ -1,0 +1,37 @@
+// SPDX-License-Identifier: MIT
+
+//go:build verif
+
+package tree
+
+import (
+	"fmt"
+	"sort"
+	"strings"
+)
+
+// VerifDump 以规范化的文本输出整个树结构，仅用于验证工具。
+func (tree *Tree[T]) VerifDump() string {
+	var sb strings.Builder
+	tree.node.verifDump(&sb)
+	return sb.String()
+}
+
+func (n *node[T]) verifDump(sb *strings.Builder) {
+	keys := make([]string, 0, len(n.handlers))
+	for k := range n.handlers {
+		keys = append(keys, fmt.Sprintf("%x", k))
+	}
+	sort.Strings(keys)
+	idx := make([]string, 0, len(n.indexes))
+	for b, i := range n.indexes {
+		idx = append(idx, fmt.Sprintf("%03d:%d", b, i))
+	}
+	sort.Strings(idx)
+	fmt.Fprintf(sb, "(v=%x t=%d mi=%d h=%s idx=%s", n.segment.Value, n.segment.Type, n.methodIndex, strings.Join(keys, ","), strings.Join(idx, ","))
+	for _, c := range n.children {
+		sb.WriteByte(' ')
+		c.verifDump(sb)
+	}
+	sb.WriteByte(')')
+}
